@@ -53,6 +53,9 @@ def excluded_tables(case):
     names = {t["name"] for t in case["cur"]} | {t["name"] for t in case["want"]}
     out = set()
     for p in case["patterns"]:
+        if p.startswith('"""') and p.endswith('"""'):  # quoted part (CSV-escaped for the flag): the literal name, dots included
+            out |= {n for n in names if n == p[3:-3]}
+            continue
         if "." in p:
             continue
         g = p
@@ -231,7 +234,7 @@ def run_exclude(ctx, case, verbose=False):
                     bad |= {i[0] for i in t["idx"]}
         if sub:
             bad |= {x for x in (pcol, pidx) if x}
-            if case["fate"].endswith("-same") or case["fate"].startswith("main-"):
+            if case["fate"].endswith("-same") or case["fate"].startswith("main-") or case["fate"] in ("like-names", "dot-name"):
                 # both sides are identical once the patterns are applied: whatever is planned touches an excluded resource or one
                 # that matches no pattern and does not differ
                 if stmts:
@@ -454,7 +457,7 @@ def report(ctx, case, v, sample, verbose):
 
 
 def gen_cases(ctx):
-    nx, ns, nk = ctx.pick(28, 280), ctx.pick(20, 120), ctx.pick(30, 300)
+    nx, ns, nk = ctx.pick(28, 280), ctx.pick(24, 120), ctx.pick(30, 300)
     cases = []
     for i in range(nx):
         cases.append(L.gen_exclude_case(ctx.rand("x", i), i))
